@@ -1,1 +1,53 @@
-From AwkV Require Import Layout.
+(** C06 property theorems (statements only; proofs in Proofs_Sort.v / Proofs_C06.v).
+    They are about the value-level specification [sort_leaves] (what one list along the sorted
+    axis becomes), which the at-axis descent applies independently to every list at that axis;
+    the layout-level model [sort_model] and the implementation are tied to it by correspondence. *)
+From AwkV Require Import Layout Ops_Sort Proofs_Sort Proofs_C06.
+From Coq Require Import Permutation Sorting.Sorted.
+
+(* For a list of numbers with missing values: sort returns the sorted numbers followed by
+   the missing values, argsort the positions realising that order followed by the positions
+   of the missing values. *)
+Theorem sort_result : forall asc argsort l,
+  numeric l ->
+  sort_leaves asc argsort l =
+  Ok (if argsort
+      then map (fun jd : Z * datum => VNum (DZ (fst jd))) (sorted_pairs asc l) ++ map (fun j => VNum (DZ j)) (none_pos l)
+      else map (fun jd : Z * datum => VNum (snd jd)) (sorted_pairs asc l) ++ map (fun _ => VNone) (none_pos l)).
+Proof. exact sort_leaves_numeric. Qed.
+Print Assumptions sort_result.
+
+(* ... where the sorted (position, value) pairs are a permutation of the list's own
+   non-missing elements (nothing is duplicated, dropped or taken from another list), *)
+Theorem sort_permutation : forall asc l, Permutation (sorted_pairs asc l) (nums l).
+Proof. exact sorted_pairs_perm. Qed.
+Print Assumptions sort_permutation.
+
+(* ... in non-decreasing (non-increasing) order of the kernel's comparator, *)
+Theorem sort_sorted : forall asc l,
+  StronglySorted (fun a b : Z * datum => num_before asc (snd b) (snd a) = false) (sorted_pairs asc l).
+Proof. exact sorted_pairs_sorted. Qed.
+Print Assumptions sort_sorted.
+
+(* ... with equal elements in their original relative order (stable), *)
+Theorem sort_stable : forall asc a l,
+  filter (equivb (Z * datum) (pair_before asc) a) (sorted_pairs asc l) =
+  filter (equivb (Z * datum) (pair_before asc) a) (nums l).
+Proof. exact sorted_pairs_stable. Qed.
+Print Assumptions sort_stable.
+
+(* ... and NaN first in both directions. *)
+Theorem nan_first_both_directions : forall asc l pre j post,
+  sorted_pairs asc l = pre ++ (j, DNaN) :: post -> Forall (fun p : Z * datum => snd p = DNaN) pre.
+Proof. exact nan_first_sorted. Qed.
+Print Assumptions nan_first_both_directions.
+
+(* The comparator (awkward_sort.cpp: less(l,r) = !isnan(r) && (isnan(l) || l < r)) is a strict weak order. *)
+Theorem cmp_strict_weak_order : forall asc,
+  (forall a, num_before asc a a = false) /\
+  (forall a b c, num_before asc a b = true -> num_before asc b c = true -> num_before asc a c = true) /\
+  (forall x y z, num_before asc x y = false -> num_before asc y x = false ->
+                 num_before asc y z = false -> num_before asc z y = false ->
+                 num_before asc x z = false /\ num_before asc z x = false).
+Proof. exact (fun asc => conj (num_before_irrefl asc) (conj (num_before_trans asc) (num_before_incomp asc))). Qed.
+Print Assumptions cmp_strict_weak_order.
